@@ -213,6 +213,15 @@ class CountingEmbedding(Embedding):
             return sum(abs(q[d] - p[d]) for d in range(self.dimension()))
         if self._metric == 'chebyshev':
             return max([abs(q[d] - p[d]) for d in range(self.dimension())], default=0.0)
+        if self._metric == 'half':         # half the Euclidean distance: smaller than any single coordinate gap suggests
+            return 0.5 * super().distance(p, q)
+        if self._metric == 'wrap':         # a flat torus of period 4 in every coordinate
+            s_ = 0.0
+            for d in range(self.dimension()):
+                g = abs(q[d] - p[d]) % 4.0
+                g = min(g, 4.0 - g)
+                s_ = s_ + g * g
+            return math.sqrt(s_)
         return super().distance(p, q)
 
 
